@@ -156,6 +156,19 @@ def job(cfg):
                     res.guard("max_err_x1e12_" + ("auto" if kind in trials.AUTO_KINDS else "c64" if kind in C64_KINDS else "f64"), 0)
                 if hl.startswith("dense") and full:
                     res.nontrivial_values((kind, n, na, nb, cfg["variant"], mode, p.label, hl), E_ref, 9)
+                    # scale invariance of the mixed estimator: walkers with tiny / huge columns
+                    for sc in (1e-3, 1e3):
+                        Es = eval_energy(trial, p.wave_data, hd, mode, "batched", Wa * sc, None if Wb is None else Wb * sc, na, nb)[good]
+                        es = np.abs(Es - E_ref) / escale
+                        es = np.where(np.isfinite(Es), es, np.inf)
+                        res.add(transitions=ng, evaluations=ng)
+                        res.guard("scaled_walker_points", ng)
+                        bad = gridmc.first_bad(es, 10 * tol)
+                        if bad is not None:
+                            pt = int(np.nonzero(good)[0][bad])
+                            res.violation("%s/%s/energy/not-scale-invariant/par:%s" % (kind, mode, gridmc.param_class(p.label)),
+                                          dict(cfg, mode=mode, entry="scaled", label=p.label, ham=hl, point=pt, tol=10 * tol, scale=sc),
+                                          dict(impl=Es[bad], ref=E_ref[bad], err=float(es[bad]), walker_scale=sc))
         res.guard("grid_points_" + mode, P)
     res.sample(dict(kind=kind, n=n, nelec=[na, nb], variant=cfg["variant"], modes=modes, n_param_sets=len(tc.params),
                     n_hamiltonians=len(hams), ham_labels=[h[0] for h in hams][:8]))
@@ -225,6 +238,10 @@ def run(ctx):
 
 def replay(case):
     cfg = dict(case)
+    if cfg.get("entry") == "scaled":
+        r = job({k: v for k, v in cfg.items() if k not in ("mode", "entry", "label", "ham", "point", "tol", "scale", "n_batch")})
+        v = [x for x in r.violations if "scale-invariant" in x["signature"]]
+        return (len(v) > 0, {"violations": [x["detail"] for x in v][:1]})
     if cfg.get("entry") == "eps-ladder":
         r = job_eps_ladder(cfg)
         return (len(r.violations) > 0, {"violations": [v["detail"] for v in r.violations]})
